@@ -16,8 +16,11 @@ from .filt_util import tok, bits, ChoiceRecorder
 
 ID = "C03"
 LEAN_MODULES = ["DclabModel.Properties.C03"]
-RULE = ("seeded histories of 5..60 operations on a dict-backed dataset with 1..25 events and 2..5 "
-        "scalar features (small integers so that ties with the bounds are frequent, NaN and +-inf "
+RULE = ("seeded histories of 5..60 operations on a dict-backed dataset with 1..25 events and 2..7 "
+        "innate scalar features plus the computed ones they make available and that have NOT been "
+        "accessed when the filter is applied (index, area_ratio, the plugin feature verif_anc, in "
+        "a few histories emodulus); the harness never reads the dataset under test, all reference "
+        "data come from a twin with every feature accessed (small integers so that ties with the bounds are frequent, NaN and +-inf "
         "anywhere; thorough: also dyadic floats): set/change a min or max key (reversed, equal, "
         "+-inf, on absent features), remove keys (pop), create polygon filters, edit ONE of axes / "
         "points / inverted of a registered polygon filter in place or re-assign all three, add/"
@@ -55,10 +58,54 @@ NOT_PROVED = ["KeyError path of update (polygon filter whose axes are missing fr
               "hierarchy children (property C04) and the 'hierarchy parent' key"]
 
 #: alphabetical, so that np.unique's order of feature names is the order of the ids
-FEATS = ["area_um", "aspect", "bright_avg", "deform", "fl1_max", "index", "pos_x", "tilt"]
-PRESENT_POOL = ["area_um", "aspect", "bright_avg", "deform", "pos_x"]
+FEATS = ["area_cvx", "area_msd", "area_ratio", "area_um", "aspect", "bright_avg", "deform",
+         "emodulus", "fl1_max", "index", "pos_x", "tilt", "verif_anc"]
+assert FEATS == sorted(FEATS)
+PRESENT_POOL = ["area_cvx", "area_msd", "area_um", "aspect", "bright_avg", "deform", "pos_x"]
 ABSENT = ["fl1_max", "tilt"]
 FID = {f: i for i, f in enumerate(FEATS)}
+
+#: computed (ancillary) scalar features a dataset offers without the harness having touched them:
+#:   area_ratio  (rapid ancillary)      <- area_cvx, area_msd      (0/0 = nan, x/0 = inf)
+#:   verif_anc   (plugin, non-rapid)    <- bright_avg              (1 -> inf, 3 -> nan)
+#:   emodulus    (non-rapid ancillary)  <- area_um, deform + setup/calculation metadata (nan
+#:                                         outside the look-up table)
+EMOD_CFG = {"setup": {"channel width": 20, "flow rate": 0.04},
+            "imaging": {"pixel size": 0.34},
+            "calculation": {"emodulus lut": "LE-2D-FEM-19", "emodulus medium": "CellCarrier",
+                            "emodulus temperature": 23.0,
+                            "emodulus viscosity model": "buyukurganci-2022"}}
+
+
+def ensure_plugin():
+    """register the plugin feature `verif_anc` once per process"""
+    common.import_dclab()
+    from dclab import definitions as dfn
+    if dfn.scalar_feature_exists("verif_anc"):
+        return
+    from dclab.rtdc_dataset.feat_anc_plugin import PlugInFeature
+
+    def compute(ds):
+        x = np.asarray(ds["bright_avg"][:], dtype=np.float64)
+        with np.errstate(all="ignore"):
+            return {"verif_anc": np.where(x == 3, np.nan, np.where(x == 1, np.inf, x))}
+    PlugInFeature("verif_anc", {
+        "method": compute, "description": "verification plugin feature",
+        "long description": "nan/inf pattern derived from bright_avg",
+        "feature names": ["verif_anc"], "feature labels": ["Verif anc"],
+        "features required": ["bright_avg"], "config required": [],
+        "method check required": lambda x: True, "scalar feature": [True], "version": "1"})
+
+
+def ancillaries(present, emod):
+    anc = []
+    if "area_cvx" in present and "area_msd" in present:
+        anc.append("area_ratio")
+    if "bright_avg" in present:
+        anc.append("verif_anc")
+    if emod and "area_um" in present and "deform" in present:
+        anc.append("emodulus")
+    return anc
 
 SHAPES = [
     [(0.5, 0.5), (3.5, 0.5), (3.5, 3.5), (0.5, 3.5)],
@@ -95,8 +142,12 @@ def gen_value(rng, thorough):
     return float(rng.randint(0, 5))
 
 
-def gen_bound(rng, thorough):
+def gen_bound(rng, thorough, vals=None):
     r = rng.random()
+    if vals and rng.random() < 0.35:          # tie with a value of the data
+        v = untok(rng.choice(vals))
+        if not math.isnan(v):
+            return v
     if r < 0.06:
         return rng.choice([math.inf, -math.inf])
     if thorough and r < 0.2:
@@ -104,13 +155,23 @@ def gen_bound(rng, thorough):
     return float(rng.randint(-1, 6))
 
 
-def gen_history(rng, thorough):
+def gen_history(rng, thorough, emod=False):
     n = rng.choice([1, 2, 3, 5, 8, 13, 25])
     present = sorted(rng.sample(PRESENT_POOL, rng.randint(2, len(PRESENT_POOL))))
+    if emod:
+        present = sorted(set(present) | {"area_um", "deform"})
     data = {f: [tok(gen_value(rng, thorough)) for _ in range(n)] for f in present}
-    filterable = present + ["index"] + ABSENT
-    nops = rng.randint(5, 60)
+    if emod:        # realistic values: partly inside, partly outside the look-up table
+        data["area_um"] = [tok(rng.choice([30.0, 60.0, 120.0, 250.0, 400.0, math.nan]))
+                           for _ in range(n)]
+        data["deform"] = [tok(rng.choice([0.005, 0.02, 0.08, 0.3])) for _ in range(n)]
+    anc = ancillaries(present, emod)
+    axes_pool = present + ["index"] + anc
+    filterable = present + ["index"] + anc + ABSENT
+    nops = rng.randint(5, 14) if emod else rng.randint(5, 60)
     ops = []
+    if anc and rng.random() < 0.5:
+        ops.append(("invalid", 1))
     keys = {}          # (feat, ismax) -> value token (generator's view, to steer validity)
     applied = {}       # the keys at the last apply that did not raise
     polys = {}         # pid -> [ax, ay, shape, inv]  (names of the axes)
@@ -158,9 +219,9 @@ def gen_history(rng, thorough):
             continue
         if r < 0.30:
             f = rng.choice(filterable if rng.random() < 0.85 else present)
-            v = gen_bound(rng, thorough)
+            v = gen_bound(rng, thorough, data.get(f))
             if rng.random() < 0.8:      # both keys
-                w = v if rng.random() < 0.12 else gen_bound(rng, thorough)
+                w = v if rng.random() < 0.12 else gen_bound(rng, thorough, data.get(f))
                 ops.append(("set", FID[f], 0, tok(v)))
                 ops.append(("set", FID[f], 1, tok(w)))
                 keys[(f, 0)], keys[(f, 1)] = tok(v), tok(w)
@@ -189,7 +250,7 @@ def gen_history(rng, thorough):
                         cur[0], cur[1] = cur[1], cur[0]
                     else:
                         k = rng.randint(0, 1)
-                        cur[k] = rng.choice([f for f in present + ["index"] if f != cur[1 - k]])
+                        cur[k] = rng.choice([f for f in axes_pool if f != cur[1 - k]])
                     ops.append(("polyaxes", pid, FID[cur[0]], FID[cur[1]]))
                 elif r2 < 0.75:
                     cur[2] = rng.randrange(len(SHAPES))
@@ -198,7 +259,7 @@ def gen_history(rng, thorough):
                     cur[3] = 1 - cur[3]
                     ops.append(("polyinv", pid, cur[3]))
             else:
-                ax, ay = rng.sample(present + ["index"], 2)
+                ax, ay = rng.sample(axes_pool, 2)
                 polys[pid] = [ax, ay, rng.randrange(len(SHAPES)), int(rng.random() < 0.3)]
                 ops.append(("polyset", pid, FID[ax], FID[ay], polys[pid][2], polys[pid][3]))
         elif r < 0.56:
@@ -215,6 +276,9 @@ def gen_history(rng, thorough):
                 ops.append(("polyrm", rng.choice(sorted(polys))))
         elif r < 0.64:
             ops.append(("invalid", rng.randint(0, 1)))
+        elif r < 0.66 and anc:
+            # the user looks at a computed feature (must not change what the filter does)
+            ops.append(("access", FID[rng.choice(anc)]))
         elif r < 0.68:
             ops.append(("enable", int(rng.random() < 0.7)))
         elif r < 0.73:
@@ -235,7 +299,7 @@ def gen_history(rng, thorough):
                 for f in hs:           # complete or drop the half-set ranges first
                     if rng.random() < 0.5:
                         mx = 0 if (f, 1) in keys else 1
-                        v = tok(gen_bound(rng, thorough))
+                        v = tok(gen_bound(rng, thorough, data.get(f)))
                         ops.append(("set", FID[f], mx, v))
                         keys[(f, mx)] = v
                     else:
@@ -262,7 +326,10 @@ def gen_history(rng, thorough):
     if not ops or ops[-1][0] != "apply":
         if not half_set():
             ops.append(("apply", []))
-    return {"n": n, "data": data, "ops": [list(o) for o in ops]}
+    case = {"n": n, "data": data, "ops": [list(o) for o in ops]}
+    if emod:
+        case["emod"] = True
+    return case
 
 
 # --------------------------------------------------------------------------------------------
@@ -275,18 +342,36 @@ class Impl:
         self.PF = PolygonFilter
         PolygonFilter.clear_all_filters()
         self.case = case
+        ensure_plugin()
         self.arrays = {f: np.array([untok(t) for t in v], dtype=np.float64)
                        for f, v in case["data"].items()}
-        self.ds = dclab.new_dataset(dict(self.arrays))
+        #: the dataset under test: the harness never reads a feature from it
+        self.ds = self.make_ds()
+        #: its twin with every scalar feature accessed: source of all reference data
+        self.ref = self.make_ds(access=True)
         self.n = len(self.ds)
         self.pf = {}          # pid -> PolygonFilter
         self.shape_of = {}    # pid -> shape token
+
+    def make_ds(self, access=False):
+        dclab = common.import_dclab()
+        ds = dclab.new_dataset({f: v.copy() for f, v in self.arrays.items()})
+        if self.case.get("emod"):
+            for sec, kv in EMOD_CFG.items():
+                for k, v in kv.items():
+                    ds.config[sec][k] = v
+        if access:
+            with np.errstate(all="ignore"):
+                for feat in ds.features_scalar:
+                    ds[feat][:]
+        return ds
 
     def features(self):
         return list(self.ds.features_scalar)
 
     def column(self, feat):
-        return np.asarray(self.ds[feat][:], dtype=np.float64)
+        with np.errstate(all="ignore"):
+            return np.asarray(self.ref[feat][:], dtype=np.float64)
 
     def pip_bits(self, shape, ax, ay):
         from dclab.external.skimage.measure import points_in_poly
@@ -325,6 +410,8 @@ class Impl:
                 self.pf[op[1]].points = np.array(SHAPES[op[2]], dtype=np.float64)
             elif kind == "polyinv":
                 self.pf[op[1]].inverted = bool(op[2])
+            elif kind == "access":
+                ds[FEATS[op[1]]][:]
             elif kind == "polyadd":
                 ds.polygon_filter_add(self.pf[op[1]])
             elif kind == "polyrm":
@@ -387,9 +474,9 @@ class Impl:
         return sel, int(cfg["limit events"])
 
     def fresh_all(self):
-        """`all` of a new dataset that is given the current settings once"""
-        dclab = common.import_dclab()
-        ds2 = dclab.new_dataset(dict(self.arrays))
+        """`all` of a new dataset (every feature accessed first) that is given the current
+        settings once"""
+        ds2 = self.make_ds(access=True)
         src = self.ds.config["filtering"]
         for k in src.keys():
             v = src[k]
@@ -439,6 +526,9 @@ def run_impl(case, want_lines=True):
         answers.append(ans)
         if want_lines:
             lines += rec.lines(sent)
+            if op[0] == "access":
+                slots.append(None)
+                continue
             if op[0] == "set":
                 lines.append(f"set {op[1]} {op[2]} {op[3]}")
             elif op[0] == "apply":
@@ -487,6 +577,8 @@ def compare(case, answers, model_out, slots):
     """first disagreement between the implementation and the model (impl mirror, and the model's
     stateless `specApply`: bits of `all`, or `raise`), or None"""
     for i, op in enumerate(case["ops"]):
+        if slots[i] is None:
+            continue
         m = model_out[slots[i]].strip()
         m_impl = m.split(" ## ")[0].strip()
         if m_impl != answers[i].strip():
@@ -552,9 +644,11 @@ def shrink(case):
 
 #: F25 (fixed by fix-F25): an apply that raises must not leave recomputed box filters behind
 F25_HISTORY = {"n": 5, "data": {"area_um": ["0", "1", "3", "2", "4"], "deform": ["5", "6", "7", "0", "1"]},
-               "ops": [["set", 0, 0, "1"], ["set", 0, 1, "2"], ["apply", []],
-                       ["set", 0, 0, "3"], ["set", 0, 1, "4"], ["set", 3, 0, "0"], ["apply", []],
-                       ["set", 0, 0, "1"], ["set", 0, 1, "2"], ["pop", 3, 0], ["apply", []]]}
+               "ops": [["set", FID["area_um"], 0, "1"], ["set", FID["area_um"], 1, "2"], ["apply", []],
+                       ["set", FID["area_um"], 0, "3"], ["set", FID["area_um"], 1, "4"],
+                       ["set", FID["deform"], 0, "0"], ["apply", []],
+                       ["set", FID["area_um"], 0, "1"], ["set", FID["area_um"], 1, "2"],
+                       ["pop", FID["deform"], 0], ["apply", []]]}
 
 
 # ---- recorded histories: replayed first on every run ------------------------------------------
@@ -569,7 +663,13 @@ def builtin_corpus():
         ["apply", []], ["polyset", 0, a, d, 2, 1], ["limit", 1], ["apply", []],
         ["reset"], ["apply", []], ["pop", d, 1], ["set", d, 1, "6"], ["manual", 1, 0],
         ["invalid", 1], ["apply", [d]], ["enable", 0], ["apply", []]]}
-    return [f03, F25_HISTORY, mixed]
+    anc = {"n": 4, "data": {"area_cvx": ["1", "0", "2", "3"], "area_msd": ["1", "0", "0", "2"],
+                            "bright_avg": ["0", "2", "2", "3"]},
+           "ops": [["invalid", 1], ["apply", []], ["access", FID["verif_anc"]], ["apply", []]]}
+    emo = {"n": 4, "emod": True, "data": {"area_um": ["60", "120", "400", "120"],
+                                          "deform": ["1/50", "1/50", "1/50", "3/10"]},
+           "ops": [["invalid", 1], ["apply", []], ["access", FID["emodulus"]], ["apply", []]]}
+    return [f03, F25_HISTORY, mixed, anc, emo]
 
 
 def exhaustive_cases(max_len=4):
@@ -611,6 +711,8 @@ def run(ctx):
             cases.append(json.loads(p.read_text()))
     for _ in range(ctx.n(1200, 10000)):
         cases.append(gen_history(ctx.rng, ctx.thorough))
+    for _ in range(ctx.n(10, 60) if ctx.lean_ok else 10):
+        cases.append(gen_history(ctx.rng, ctx.thorough, emod=True))
     if ctx.thorough:
         ex = exhaustive_cases(4)
         cases += ex
